@@ -178,43 +178,80 @@ impl<'a> JsonTokenizer<'a> {
 
     pub(super) fn read_string(&mut self) -> io::Result<String> {
         let mut result = String::new();
-        let mut escape = false;
 
         self.expect('"')?;
         self.skip_whitespaces = false;
 
-        while let Ok(c) = self.read() {
-            if escape {
-                // Handle escape sequences
-                match c {
-                    '\\' => result.push('\\'),
-                    '"' => result.push('"'),
+        loop {
+            let c = self.read_in_string()?;
+
+            if c == '\\' {
+                // Escape sequences (RFC 8259)
+                let e = self.read_in_string()?;
+                match e {
+                    '"' | '\\' | '/' => result.push(e),
+                    'b' => result.push('\u{8}'),
+                    'f' => result.push('\u{c}'),
                     'n' => result.push('\n'),
-                    // 't' => result.push('\t'),
-                    // 'r' => result.push('\r'),
-                    // Add other escape sequences as needed
-                    // _ => result.push(c), // Push the character as is if unknown escape
-                    _ => {}
+                    'r' => result.push('\r'),
+                    't' => result.push('\t'),
+                    'u' => {
+                        let code = self.read_hex4()?;
+                        if (0xD800..0xDC00).contains(&code) {
+                            // A high surrogate must be followed by an escaped low surrogate
+                            if self.read_in_string()? != '\\' || self.read_in_string()? != 'u' {
+                                return Err(Self::bad_string("Unpaired surrogate in string"));
+                            }
+                            let low = self.read_hex4()?;
+                            if !(0xDC00..0xE000).contains(&low) {
+                                return Err(Self::bad_string("Unpaired surrogate in string"));
+                            }
+                            let code_point = 0x10000 + ((code - 0xD800) << 10) + (low - 0xDC00);
+                            match char::from_u32(code_point) {
+                                Some(ch) => result.push(ch),
+                                None => return Err(Self::bad_string("Invalid unicode escape")),
+                            }
+                        } else {
+                            match char::from_u32(code) {
+                                Some(ch) => result.push(ch),
+                                None => return Err(Self::bad_string("Invalid unicode escape")),
+                            }
+                        }
+                    }
+                    _ => return Err(Self::bad_string("Invalid escape sequence in string")),
                 }
-                escape = false;
-            } else if c == '\\' {
-                escape = true;
             } else if c == '"' {
                 self.skip_whitespaces = true;
-                break; // End of the quoted string
+                return Ok(result); // End of the quoted string
             } else {
                 result.push(c);
             }
         }
+    }
 
-        if !escape {
-            Ok(result)
-        } else {
-            Err(io::Error::new(
-                io::ErrorKind::InvalidData,
-                "Unterminated string",
-            ))
+    fn bad_string(message: &str) -> io::Error {
+        io::Error::new(io::ErrorKind::InvalidData, message.to_owned())
+    }
+
+    // Next character inside a string literal; the end of the input here means the string never ended
+    fn read_in_string(&mut self) -> io::Result<char> {
+        match self.read() {
+            Ok(c) => Ok(c),
+            Err(_) => Err(Self::bad_string("Unterminated string")),
         }
+    }
+
+    // Four hexadecimal digits of a \uXXXX escape
+    fn read_hex4(&mut self) -> io::Result<u32> {
+        let mut code: u32 = 0;
+        for _ in 0..4 {
+            let c = self.read_in_string()?;
+            match c.to_digit(16) {
+                Some(d) => code = code * 16 + d,
+                None => return Err(Self::bad_string("Invalid unicode escape")),
+            }
+        }
+        Ok(code)
     }
 
     fn read_until_separator(&mut self) -> io::Result<String> {
